@@ -187,6 +187,7 @@ var checks = []Check{
 		Jobs: []Job{
 			{Pkg: "proc/redis", Scenarios: []string{"C14/commands"}, Shards: 12, QuickS: 120, ThoroughS: 300},
 			{Pkg: "proc/redis", Scenarios: []string{"C14/topology"}, Shards: 1, QuickS: 60, ThoroughS: 120},
+			{Pkg: "proc/redis", Scenarios: []string{"C14/strategy-update"}, Shards: 16, QuickS: 60, ThoroughS: 300},
 		},
 	},
 	{
